@@ -96,6 +96,22 @@ Definition check_ft (k : case_ft) : bool :=
   | _, _ => false
   end.
 
+(* ---- dft_preprocess_data / dft_postprocess_data called directly on arrays of ones (1-d):
+        every shift x parity x half-complex x sign x multiply/divide x nearest/linear ---- *)
+Record case_fac := {
+  p_ax : axq; p_sh : bool; p_half : bool; p_sg : Z; p_div : bool; p_lin : bool;
+  p_pre : list cq;       (* dft_preprocess_data(ones(n), shift, sign) *)
+  p_post : list cq }.    (* dft_postprocess_data(ones(rn), real_grid, recip_grid, shift, interp, sign, op) *)
+Definition ptol : Q := 1 # 100000000000.
+Definition check_fac (k : case_fac) : bool :=
+  let a := mkax (p_ax k) in
+  let n := a_n a in
+  let rn := a_n (recip_axis 1 a (Some (p_sh k)) (p_half k)) in
+  cs_close ptol ptol (p_pre k) (map (pre_fac cispiQ n (p_sh k) (sgq (p_sg k))) (seq 0 n))
+  && cs_close ptol ptol (p_post k)
+       (map ((if p_lin k then post_fac_lin else post_fac) piQ sq2piQ cispiQ a (p_sh k) (p_half k)
+               (sgq (p_sg k)) (p_div k)) (seq 0 rn)).
+
 (* ---- the Q instance of cispi against libm ---- *)
 Record case_cis := { c_a : Q; c_cos : Q; c_sin : Q }.
 Definition check_cis (k : case_cis) : bool :=
